@@ -24,6 +24,7 @@ for r in rows:
     print('| %s |' % ' | '.join(r))
 n = len(rows)
 print()
-print('%d seeded changes; caught on first run: %d; caught now: %d; missed now: %d' % (
-    n, sum(1 for r in rows if r[4].startswith('caught')), sum(1 for r in rows if r[5].startswith('caught')),
-    sum(1 for r in rows if r[5] == 'missed')))
+print('%d seeded changes. First triage run (before any strengthening): %d reported by the property\'s own check, %d only by another '
+      'property\'s check, %d missed. Now: %d reported by the own check, %d only by another, %d missed.' % (
+          n, sum(1 for r in rows if r[4] == 'caught'), sum(1 for r in rows if r[4] == 'caught-by-other'), sum(1 for r in rows if r[4] == 'missed'),
+          sum(1 for r in rows if r[5] == 'caught'), sum(1 for r in rows if r[5] == 'caught-by-other'), sum(1 for r in rows if r[5] == 'missed')))
